@@ -364,6 +364,7 @@ class WriterK1(object):
                         I.deterministic = False
                         if getattr(self, 'last_abstract', False):
                             a, kw, content = self._abstract_args(name)
+                        state['kwargs'] = dict(kw)
                         state['mark'] = len(I.events)
                         state['own'] = own
                         state['name'] = name
@@ -393,7 +394,7 @@ class WriterK1(object):
         npaths = 0
         for path in I.explore(thunk):
             npaths += 1
-            if npaths > getattr(self, "max_paths", 512):
+            if npaths > getattr(self, "max_paths", 6000):
                 raise AnalysisError('writer K1: too many paths for %r' % (seq,))
             result['next_id'] = state.get('next_id')
             result['prev_id'] = state.get('prev_at_last')
@@ -446,6 +447,8 @@ class WriterK1(object):
             if path.outcome != 'return':
                 continue
             result['accepted'] = True
+            if getattr(self, 'last_abstract', False):
+                self._rendered_options(path, state, result)
             obj = state['obj']
             name, own = state['name'], state['own']
             level = {'new_change': 1, 'new_file': 2}.get(name)
@@ -485,6 +488,39 @@ class WriterK1(object):
                 uniq.append(pr)
         result['problems'] = uniq
         return result
+
+    RENDER_KEYS = {'encoding': 'encoding', 'mimetype': 'mimetype', 'diff_type': 'type', 'indent': 'indent'}
+
+    def _rendered_options(self, path, state, result):
+        from sa import sinks
+        name = state['name']
+        evs = path.events[state['mark']:]
+        kwargs = state.get('kwargs') or {}
+        keys = set()
+        for ev in evs:
+            if ev.kind == 'stream-write' and ev.data.get('stream') is state.get('fp'):
+                for k_, v_, _n in sinks.header_pairs(ev.data.get('data')):
+                    if is_concrete(k_):
+                        keys.add(str(concrete(k_)))
+        for pname, v in kwargs.items():
+            key = self.RENDER_KEYS.get(pname)
+            if key is None or not isinstance(v, Unk):
+                continue
+            if v.has_const and v.const is None:
+                continue
+            if 'falsy' in v.facts and pname != 'indent':
+                continue
+            if not v.has_const and v.may_be('NoneType') and 'truthy' not in v.facts \
+                    and not (v.kinds is not None and 'NoneType' not in v.kinds):
+                continue      # None-ness undecided on this path
+            rec = (name, pname)
+            if key in keys:
+                if rec not in result.setdefault('rendered', []):
+                    result['rendered'].append(rec)
+            else:
+                r3 = (name, pname, key)
+                if r3 not in result.setdefault('unrendered', []):
+                    result['unrendered'].append(r3)
 
     def explore(self):
         seen = {}
@@ -553,7 +589,7 @@ _K = None
 def _run_one(seq):
     res = _K.run_sequence(seq)
     out = {'problems': res['problems'], 'sig': res.get('sig'), 'accepted': res.get('accepted', True)}
-    for k in ('raises', 'escapes', 'ops', 'pairs', 'next_id', 'prev_id', 'written_id'):
+    for k in ('raises', 'escapes', 'ops', 'pairs', 'next_id', 'prev_id', 'written_id', 'rendered', 'unrendered'):
         if k in res:
             out[k] = res[k]
     return out
